@@ -123,6 +123,12 @@ class Revision(UserString):
 
 
 def ver_cmp(ver1: str, rev1: str, ver2: str, rev2: str) -> int:
+    # A missing revision is revision 0 (VersionMatch passes None when no revision was given).
+    if rev1 is None:
+        rev1 = 0
+    if rev2 is None:
+        rev2 = 0
+
     # If the versions are the same, comparing revisions will suffice.
     if ver1 == ver2:
         # revisions are equal if 0 or None (versionless cpv)
